@@ -216,6 +216,20 @@ def _o_shape_seed(spec, n, seed, seed2):
     b = np.asarray(model.draw_sample(n, random_state=seed))
     if not np.array_equal(a, b):
         return ({"clause": "seed-reproducible", "kind": "int-twice"}, "two draw_sample(%d, random_state=%d) calls differ" % (n, seed))
+    # the sample is a function of (model, n, seed) alone: unrelated arrays that are alive while the sample is drawn must not
+    # change a bit of it (numpy picks its loop for a strided view by the position of the arrays in memory; the loops differ
+    # in the last bits -- what the process did before must not show in a seeded sample)
+    for k in HEAP_HISTORY:
+        junk = [np.empty(n) for _ in range(k)]
+        b2 = np.asarray(model.draw_sample(n, random_state=seed))
+        del junk
+        if not np.array_equal(a, b2):
+            ne = int(np.sum(a != b2))
+            with np.errstate(all="ignore"):
+                rel = float(np.nanmax(np.abs(a - b2) / np.maximum(np.abs(a), 1e-300)))
+            return ({"clause": "seed-reproducible", "kind": "heap-history"},
+                    "draw_sample(%d, random_state=%d) differs in %d entries (largest relative difference %.3g) when %d unrelated arrays of "
+                    "%d doubles are alive during the second draw" % (n, seed, ne, rel, k, n))
     g = np.random.default_rng(seed)
     c = np.asarray(model.draw_sample(n, random_state=g))
     c2 = np.asarray(model.draw_sample(n, random_state=np.random.default_rng(seed)))
@@ -305,6 +319,24 @@ def input_class(spec, i):
 
 
 EDGE_SEEDS = [(0, "int"), (0, "int64"), (2 ** 32 - 1, "int"), (1, "int")]
+
+
+HEAP_HISTORY = (1, 2, 4, 6)
+
+
+def chain_specs():
+    """4-D and 5-D models in which a late dimension is conditional on a dimension with index >= 2 through a power law
+    a + b * x**c (the dependence function of the predefined sea-state models): the conditioning column is then a strided view
+    whose extent, as numpy computes it, reaches the next heap block"""
+    w = {"alpha": ["val", 2.0], "beta": ["val", 1.7], "gamma": ["val", 0.1]}
+    ln1 = {"mu": ["dep", "lin", [0.3, 0.2]], "sigma": ["dep", "lin", [0.3, 0.05]]}
+    pw = {"mu": ["dep", "pw", [0.3, 0.4, 0.83]], "sigma": ["dep", "pw", [0.2, 0.1, 0.61]]}
+    four = {"dims": [{"fam": "W", "cond": None, "params": dict(w)}, {"fam": "LN", "cond": 0, "params": dict(ln1)},
+                     {"fam": "LN", "cond": 0, "params": dict(ln1)}, {"fam": "LN", "cond": 2, "params": dict(pw)}]}
+    five = {"dims": four["dims"] + [{"fam": "LN", "cond": 3, "params": dict(pw)}]}
+    three = {"dims": [{"fam": "W", "cond": None, "params": dict(w)}, {"fam": "LN", "cond": 0, "params": dict(pw)},
+                      {"fam": "LN", "cond": 1, "params": dict(pw)}]}
+    return [four, five, three]
 
 
 def edge_specs():
@@ -824,6 +856,13 @@ def run(ctx):
         if idx % ctx.n(2, 1) == 0:
             neval += 1
             report(o_statistics(sp, nbig, seed, stats), {"oracle": "statistics", "spec": sp, "n": nbig, "seed": seed})
+    # EVERY run: chains with a power-law dependence on a late dimension, at sample sizes over the small-block range of the allocator
+    for csp in chain_specs():
+        seed = rng.randrange(2 ** 31)
+        for n in (117, 135, 142, 205, 254, 331, 1000, rng.randrange(100, 3000)):
+            neval += 1
+            if report(o_shape_seed(csp, n, seed, seed + 1), {"oracle": "shape_seed", "spec": csp, "n": n, "seed": seed, "seed2": seed + 1}):
+                break
     # edge seeds (0 is falsy, np.int64(0) too, 2**32-1 is the largest legacy seed): same obligations as any other int seed
     for esp in edge_specs():
         twin = all(d == esp["dims"][0] for d in esp["dims"])
